@@ -704,6 +704,51 @@ theorem idxInjOn_prepOutput {t : RawTree} (w : RawTree.WF t) (names : List Gene)
   rw [hxy, h2] at h1
   exact (Option.some.inj h1).symm
 
+/-! ### the delivery order of the workers is immaterial -/
+
+theorem markerTable_perm (r : RefFile) (order order' : List PKey) (chosen : PKey → List Nat)
+    (hp : order.Perm order') (lk : Lookup) (h : markerTable r order chosen = .ok lk) :
+    ∃ lk', markerTable r order' chosen = .ok lk' ∧ lk.Perm lk' ∧ ∀ k, get? lk k = get? lk' k := by
+  obtain ⟨h1, rfl⟩ := (markerTable_ok_iff r order chosen lk).1 h
+  refine ⟨_, (markerTable_ok_iff r order' chosen _).2 ⟨fun p hpm => h1 p (hp.mem_iff.2 hpm), rfl⟩,
+    hp.map _, ?_⟩
+  intro k
+  rw [get?_map_mk, get?_map_mk]
+  by_cases hk : k ∈ order
+  · rw [if_pos hk, if_pos (hp.mem_iff.1 hk)]
+  · rw [if_neg hk, if_neg (fun h' => hk (hp.mem_iff.2 h'))]
+
+/-- the validation reads the table by key only -/
+theorem errAt_congr (t : RawTree) (lk lk' : Lookup) (Q : List Gene) (m : Nat) (p : PKey)
+    (h : ∀ k, get? lk k = get? lk' k) : errAt t lk Q m p ↔ errAt t lk' Q m p := by
+  have : get? lk = get? lk' := funext h
+  unfold errAt specGenes
+  simp only [this]
+
+/-- acceptance of a dict-like table of reference genes is decided by the error condition of the
+consulted parents alone -/
+theorem createCache_ok_iff (t : RawTree) (hT : TreeWF t) (lk : Lookup) (R Q : List Gene) (m : Nat)
+    (hk : KeysNodup lk) (hR : ∀ e ∈ lk, ∀ g ∈ e.2, g ∈ R) :
+    (∃ c, createCache (some t) lk R Q m = .ok c) ↔
+      ∀ p ∈ t.allParents, Consulted t p → ¬ errAt t lk Q m p := by
+  constructor
+  · rintro ⟨c, hc⟩ p hp hcons he
+    obtain ⟨e, hee⟩ := createCache_rejects_errAt t (treeOK_of_wf t hT) lk R Q m p hp hcons he
+    rw [hc] at hee; cases hee
+  · intro h
+    exact C08.accepted_otherwise t hT lk R Q m hk h hR
+
+/-- the only refusals a table of reference genes with distinct keys can meet are the two
+messages of `validate_marker_lookup` about the QUERY lacking markers -/
+theorem createCache_error_query_only (t : RawTree) (hT : TreeWF t) (lk : Lookup) (R Q : List Gene)
+    (m : Nat) (hk : KeysNodup lk) (hR : ∀ e ∈ lk, ∀ g ∈ e.2, g ∈ R) (e : MErr)
+    (h : createCache (some t) lk R Q m = .error e) : e = .noMarkersAnyLevel ∨ e = .validating := by
+  rcases C08.only_documented_errors t hT lk R Q m e h with h1 | h1 | h1 | h1
+  · exact Or.inl h1
+  · exact Or.inr h1
+  · subst h1; exact absurd h (C08.overlap_error_unreachable t hT lk R Q m hk)
+  · subst h1; exact absurd h (createCache_ne_notInReference t (treeOK_of_wf t hT) lk R Q m hR)
+
 /-- example taxonomy: levels 0, 1; nodes 11 ⊃ {33}, 10 ⊃ {31, 30}; leaves 33, 30, 31 -/
 def exTr : RawTree :=
   { hierarchy := [0, 1],
